@@ -382,7 +382,7 @@ class AnnotationsItem:
             return f"^({result})$"
 
         self._paths_regex = re.compile(
-            "|".join(translate(path) for path in self.paths)
+            "|".join(translate(path) for path in self.paths), re.DOTALL
         )
 
     @classmethod
@@ -405,7 +405,7 @@ class AnnotationsItem:
         """Determine whether *path* matches any of the paths (or path globs) in
         :class:`AnnotationsItem`.
         """
-        return bool(self._paths_regex.match(path))
+        return bool(self._paths_regex.fullmatch(path))
 
 
 @attrs.define
